@@ -362,8 +362,9 @@ func c17Conc(cc c17Cell, env *Env) CellResult {
 	iv := c17Interval(cc)
 
 	type callRes struct {
-		id  int
-		err error
+		id           int
+		err          error
+		vStart, vEnd time.Time // virtual instants at which the call was issued and at which it returned
 	}
 
 	var (
@@ -379,8 +380,9 @@ func c17Conc(cc c17Cell, env *Env) CellResult {
 			n := n
 			vsched.SpawnThread("invalidate", func() {
 				for i := 0; i < n; i++ {
+					t0 := vclock.NowQuiet()
 					id, err := h.invalidate()
-					calls = append(calls, callRes{id, err})
+					calls = append(calls, callRes{id, err, t0, vclock.NowQuiet()})
 				}
 			})
 		}
@@ -440,6 +442,35 @@ func c17Conc(cc c17Cell, env *Env) CellResult {
 				}
 			default:
 				bad("error", fmt.Sprintf("unexpected error %v", c.err))
+			}
+		}
+
+		// a rejection needs a reason: an accepted run that had started by the time the call returned and less than
+		// SkipInterval before the call was issued (callbacks run under the mutex, so the run that stamped the interval
+		// has started before anybody else can look at it)
+		for _, c := range calls {
+			if cc.Callbacks == 0 || !errors.Is(c.err, cache.ErrAlreadyInvalidated) {
+				continue
+			}
+
+			justified := false
+
+			for _, a := range h.runOrder {
+				if !h.runStart[a].After(c.vEnd) && c.vStart.Sub(h.runStart[a]) < iv {
+					justified = true
+				}
+			}
+
+			if !justified {
+				bad("rejected-without-reason", fmt.Sprintf("call %d, issued at +%v and returned at +%v, was rejected although no accepted run had started within SkipInterval %v before it (runs started at %v)",
+					c.id, c.vStart.Sub(vclock.Epoch), c.vEnd.Sub(vclock.Epoch), iv, func() []time.Duration {
+						var d []time.Duration
+						for _, a := range h.runOrder {
+							d = append(d, h.runStart[a].Sub(vclock.Epoch))
+						}
+
+						return d
+					}()))
 			}
 		}
 
@@ -535,7 +566,7 @@ func init() {
 		Cells: c17Cells, Run: c17Run,
 		Rule: "(seq) BFS over sequences of {Invalidate, Invalidate whose last callback panics (caller recovers), Invalidate under an already cancelled context, Advance I-1ns, I, I+1ns, 1ns, Callbacks=nil, Callbacks=restored} for SkipInterval {default 15s, 1s} x callbacks {none,1,3} against the model accepted <=> now-lastAccepted >= I; " +
 			"(conc) 2-3 threads x 1-2 Invalidate calls plus a clock thread advancing by I-1ns or I, callbacks are harness functions with a scheduling point inside, all schedules within the bound: " +
-			"no overlap, every accepted call runs every callback once in order before it returns, rejected calls run none, number of accepted calls bounded by the elapsed virtual time",
+			"no overlap, every accepted call runs every callback once in order before it returns, rejected calls run none and every rejection is explained by an accepted run less than SkipInterval earlier, number of accepted calls bounded by the elapsed virtual time",
 		Assumptions: []string{
 			"calls are attributed to callbacks through a context value",
 			"quick: preemption bound 2; thorough: unbounded with happens-before caching",
